@@ -34,6 +34,48 @@ NA = {
 }
 
 CLAIMED = {
+    "C03": dict(
+        level="exploration",
+        technique="deterministic simulation: the run-time-chosen internal qubit order is a seam (the scheduler returns identity / reversal / the real optimiser's answer / arbitrary permutations), plus register relabelling and crash+resume; run-vs-run oracle",
+        design="7.3",
+        text="Seeded scenarios with distinguishable atoms (local targets, DMM, SLM, dark atoms, pi pulse on one atom, user initial state) are run under several internal orders, with the register re-inserted / relabelled, with non-permutable observables (safeguard) and interrupted by crash+resume; results must agree (2e-4) and list atoms in register order; the pi-pulse workload checks bit-string positions exactly.",
+        note="tolerance calibrated on the repaired tree (max discrepancy reported in the evidence); weakly entangling workloads with truncation off so that TDVP's order-dependent error is far below the tolerance",
+    ),
+    "C14": dict(
+        level="exploration",
+        technique="deterministic simulation of the discrete-event loop over target times: seeded evaluation-time / dt swarm on both backends and all solvers incl. quantum-jump re-evolution and crash+resume; history oracle over the recorded Results plus a clock-revealing workload",
+        design="7.4",
+        text="Per observable the recorded times must be strictly increasing and equal the requested set one-to-one (1e-10), nothing else recorded, run() must not raise; with the clock-revealing workload (non-interacting atoms, constant resonant drive) each recorded occupation must equal sin^2(Omega t/2) at the requested time (1e-7).",
+        note="for emu-sv there is no fault to inject (no autosave, no jump search): there the check is the history oracle over seeded configurations",
+    ),
+    "C15": dict(
+        level="exploration",
+        technique="seeded-RNG seam (torch + random from the tape) with per-draw invariants on every seed and exact binomial acceptance against an independent Born-rule + bit-flip-channel model; no clock or fault involved (stated)",
+        design="7.9",
+        text="Random MPS (qubits/qutrits), state vectors, density matrices and product states, 1..20000 shots, readout error rates in [0,1] incl. 0 and 1: total count, string format, impossible outcomes, bit positions (product states), and per-string exact two-sided binomial tests at a family-wise level of 1e-9 per invocation.",
+        note="statistical acceptance at a fixed family-wise error rate; the Born model is a dense contraction independent of the sampling code",
+    ),
+    "C17": dict(
+        level="exploration",
+        technique="deterministic simulation of seeded jump schedules (one RNG stream per trajectory) with per-trajectory invariants and a finite-sample (empirical Bernstein) acceptance test of the trajectory mean against a dense Lindblad reference model",
+        design="7.8",
+        text="16 (quick) / 64 (thorough) seeded cases covering every Lindblad channel alone and in pairs incl. 3x3 effective noise, 1600 / 6400 trajectories each; every trajectory's values in physical range; every (component, time) mean within the confidence radius of the model (family-wise 1e-9).",
+        note="bias allowance 1e-2 for the solver's deterministic error; collapse operators of the model written from Pulser's definitions; one open known finding (F9)",
+    ),
+    "C21": dict(
+        level="exploration",
+        technique="deterministic simulation: the executed step calendar (read from the per-step `statistics` record and from step/trajectory counters) of every solver, incl. re-entered steps and crash+resume, against an exact-rational reference calendar",
+        design="7.5",
+        text="Executed step boundaries strictly increasing from 0 to the duration, containing every multiple of dt and every requested time and nothing else; one solver step per interval; n_trajectories simulations per run. Weakest fit of the family: the calendar itself is a pure function, its execution is not.",
+        note="calendar points closer than 1e-10 (relative) count as one; state-preparation errors excluded from the workload (C25's subject)",
+    ),
+    "C34": dict(
+        level="exploration",
+        technique="deterministic simulation with the numpy RNG that drives Pulser's noise-trajectory sampling under the tape; the per-trajectory history is recorded at the _run_from_sequence_data seam; conservation / exactly-once oracle plus isolated re-simulation of recorded trajectories",
+        design="7.10",
+        text="Exactly n_trajectories simulations; MEAN tags equal the arithmetic mean of the recorded per-trajectory values (1e-12), bit-string counter equals the multiset union and sums to n x shots, times preserved; each sampled trajectory re-simulated alone from its pre-call SequenceData and RNG state reproduces the recorded result (no cross-trajectory state).",
+        note="aggregation semantics are Pulser's; runs that emu-mps refuses (fewer than two well-prepared atoms) are skipped and counted",
+    ),
     "C26": dict(
         level="fault_enumeration",
         technique="deterministic simulation: simulated clock + crash worlds (directory snapshots) + fresh incarnations resuming, compared run-vs-run with a reference; seeded scenarios",
@@ -64,10 +106,7 @@ CLAIMED = {
     ),
 }
 
-PENDING = {
-    k: "not claimed yet: the simulation check designed in DESIGN.md section 7 for this property is still under construction; it moves to the claimed list when its check is committed"
-    for k in ("C03", "C14", "C15", "C17", "C21", "C34")
-}
+PENDING = {}
 
 
 def main() -> int:
